@@ -21,7 +21,7 @@ import (
 	"time"
 )
 
-const hangAfter = 4 * time.Second
+var hangAfter = 4 * time.Second
 
 // hangLimit: a concurrent mix runs thousands of operations (under the race detector, too)
 func hangLimit(op string) time.Duration {
@@ -118,7 +118,9 @@ func main() {
 	start := flag.Int("start", 0, "skip cases before this index (resume after a crash)")
 	dry := flag.Bool("dry", false, "print the abstract cases without executing them")
 	careful := flag.Bool("careful", false, "flush around every case so a fatal error identifies its case")
+	hang := flag.Int("hang", 4, "seconds after which a case counts as hanging")
 	flag.Parse()
+	hangAfter = time.Duration(*hang) * time.Second
 	if flag.NArg() < 1 {
 		names := []string{}
 		for k := range props {
